@@ -1,11 +1,457 @@
-// Package c12 - correspondence harness for C12 (stub: not built yet).
+// Package c12 runs every verification entry point under recover over the configuration matrix
+// (OCI-only, blob-only, both; skip / no-match statements; nil plugin manager) and feeds
+// malformed inputs to the parser-facing entry points (a sampled, fuzz-style validation).
 package c12
 
 import (
+	"bytes"
+	"context"
+	"crypto/x509"
+	"encoding/json"
 	"errors"
+	"fmt"
+	"os"
+	"path/filepath"
+	"runtime"
+	"strings"
+	"time"
 
+	"github.com/notaryproject/notation-core-go/signature"
+	"github.com/notaryproject/notation-go"
+	"github.com/notaryproject/notation-go/config"
+	"github.com/notaryproject/notation-go/dir"
+	"github.com/notaryproject/notation-go/plugin"
+	"github.com/notaryproject/notation-go/verifier"
+	"github.com/notaryproject/notation-go/verifier/crl"
+	"github.com/notaryproject/notation-go/verifier/trustpolicy"
+	"github.com/notaryproject/notation-go/verifier/truststore"
 	"github.com/notaryproject/notation-go/xverif/common"
+	pluginfw "github.com/notaryproject/notation-plugin-framework-go/plugin"
+	"github.com/opencontainers/go-digest"
+	ocispec "github.com/opencontainers/image-spec/specs-go/v1"
 )
 
-// Run generates the cases of C12.
-func Run(c *common.Ctx) error { return errors.New("C12: harness not built yet") }
+type Input struct {
+	Entry   string `json:"entry"`
+	OCI     string `json:"oci"`
+	Blob    string `json:"blob"`
+	Manager bool   `json:"manager"`
+	Sig     string `json:"sig"`
+	Fuzz    bool   `json:"fuzz"`
+}
+
+type Outcome struct {
+	HasError   bool `json:"hasError"`
+	HasContent bool `json:"hasContent"`
+}
+
+type Obs struct {
+	Panicked   bool     `json:"panicked"`
+	Err        bool     `json:"err"`
+	Outcome    *Outcome `json:"outcome"`
+	Consistent bool     `json:"consistent"`
+}
+
+var target = ocispec.Descriptor{MediaType: "application/vnd.oci.image.manifest.v1+json", Digest: digest.FromString("c12 artifact"), Size: 12}
+var blob = []byte("c12 blob content")
+
+const ref = "reg.example/c12"
+
+type world struct {
+	chain    *common.Chain
+	sigs     map[string][]byte // OCI signatures by kind
+	blobSigs map[string][]byte
+	maxHeap  uint64
+	panics   []string
+}
+
+func newWorld() *world {
+	nb := time.Now().Add(-48 * time.Hour)
+	w := &world{chain: common.MakeChain(common.ChainOpts{Tag: "c12", RootNB: nb, LeafNB: nb}), sigs: map[string][]byte{}, blobSigs: map[string][]byte{}}
+	bd := ocispec.Descriptor{MediaType: "application/octet-stream", Digest: digest.FromBytes(blob), Size: int64(len(blob))}
+	plug := []signature.Attribute{{Key: verifier.HeaderVerificationPlugin, Critical: true, Value: "absent-plugin"}}
+	w.sigs["valid"] = common.MustSign(common.EnvOpts{Chain: w.chain, Target: &target})
+	w.sigs["demandsPlugin"] = common.MustSign(common.EnvOpts{Chain: w.chain, Target: &target, ExtAttrs: plug})
+	w.sigs["garbage"] = []byte("{not an envelope")
+	w.blobSigs["valid"] = common.MustSign(common.EnvOpts{Chain: w.chain, Target: &bd})
+	w.blobSigs["demandsPlugin"] = common.MustSign(common.EnvOpts{Chain: w.chain, Target: &bd, ExtAttrs: plug})
+	w.blobSigs["garbage"] = []byte("{not an envelope")
+	return w
+}
+
+func sv(level string) trustpolicy.SignatureVerification {
+	s := trustpolicy.SignatureVerification{VerificationLevel: level}
+	if level != "skip" {
+		s.Override = map[trustpolicy.ValidationType]trustpolicy.ValidationAction{trustpolicy.TypeRevocation: trustpolicy.ActionSkip}
+	}
+	return s
+}
+
+func (w *world) verifier(in Input) (notation.Verifier, notation.BlobVerifier, interface {
+	SkipVerify(context.Context, notation.VerifierVerifyOptions) (bool, *trustpolicy.VerificationLevel, error)
+}) {
+	store := common.NewMemStore()
+	store.Certs["ca:c12"] = []*x509.Certificate{w.chain.Root().Cert}
+	opts := verifier.VerifierOptions{}
+	stores, ids := []string{"ca:c12"}, []string{"*"}
+	switch in.OCI {
+	case "noMatch":
+		opts.OCITrustPolicy = &trustpolicy.OCIDocument{Version: "1.0", TrustPolicies: []trustpolicy.OCITrustPolicy{{Name: "other", RegistryScopes: []string{"other.example/x"}, SignatureVerification: sv("strict"), TrustStores: stores, TrustedIdentities: ids}}}
+	case "skip":
+		opts.OCITrustPolicy = &trustpolicy.OCIDocument{Version: "1.0", TrustPolicies: []trustpolicy.OCITrustPolicy{{Name: "c12", RegistryScopes: []string{"*"}, SignatureVerification: sv("skip")}}}
+	case "enforce":
+		opts.OCITrustPolicy = &trustpolicy.OCIDocument{Version: "1.0", TrustPolicies: []trustpolicy.OCITrustPolicy{{Name: "c12", RegistryScopes: []string{"*"}, SignatureVerification: sv("strict"), TrustStores: stores, TrustedIdentities: ids}}}
+	}
+	switch in.Blob {
+	case "noMatch":
+		opts.BlobTrustPolicy = &trustpolicy.BlobDocument{Version: "1.0", TrustPolicies: []trustpolicy.BlobTrustPolicy{{Name: "other", SignatureVerification: sv("strict"), TrustStores: stores, TrustedIdentities: ids}}}
+	case "skip":
+		opts.BlobTrustPolicy = &trustpolicy.BlobDocument{Version: "1.0", TrustPolicies: []trustpolicy.BlobTrustPolicy{{Name: "c12", SignatureVerification: sv("skip")}}}
+	case "enforce":
+		opts.BlobTrustPolicy = &trustpolicy.BlobDocument{Version: "1.0", TrustPolicies: []trustpolicy.BlobTrustPolicy{{Name: "c12", SignatureVerification: sv("strict"), TrustStores: stores, TrustedIdentities: ids}}}
+	}
+	if in.Manager {
+		opts.PluginManager = &common.ScriptedManager{Plugins: map[string]pluginfw.Plugin{}}
+	}
+	v, err := verifier.NewVerifierWithOptions(store, opts)
+	if err != nil {
+		panic(fmt.Sprintf("c12: NewVerifierWithOptions: %v", err))
+	}
+	return v, v, v
+}
+
+// one-signature repository
+type repo struct{ sig []byte }
+
+func (r *repo) Resolve(ctx context.Context, reference string) (ocispec.Descriptor, error) {
+	return target, nil
+}
+func (r *repo) ListSignatures(ctx context.Context, desc ocispec.Descriptor, fn func([]ocispec.Descriptor) error) error {
+	return fn([]ocispec.Descriptor{{MediaType: ocispec.MediaTypeImageManifest, Digest: digest.FromString("sig"), Size: 1}})
+}
+func (r *repo) FetchSignatureBlob(ctx context.Context, desc ocispec.Descriptor) ([]byte, ocispec.Descriptor, error) {
+	return r.sig, ocispec.Descriptor{MediaType: common.MediaJWS}, nil
+}
+func (r *repo) PushSignature(ctx context.Context, mediaType string, blob []byte, subject ocispec.Descriptor, annotations map[string]string) (a, b ocispec.Descriptor, err error) {
+	return
+}
+
+func outcomeOf(o *notation.VerificationOutcome) *Outcome {
+	if o == nil {
+		return nil
+	}
+	return &Outcome{HasError: o.Error != nil, HasContent: o.EnvelopeContent != nil}
+}
+
+// guard runs f under recover and watches the heap.
+func (w *world) guard(label string, f func()) (panicked bool) {
+	defer func() {
+		if r := recover(); r != nil {
+			panicked = true
+			if len(w.panics) < 5 {
+				w.panics = append(w.panics, fmt.Sprintf("%s: %v", label, r))
+			}
+		}
+	}()
+	f()
+	return false
+}
+
+func (w *world) heapCheck() bool {
+	var ms runtime.MemStats
+	runtime.ReadMemStats(&ms)
+	if ms.HeapAlloc > w.maxHeap {
+		w.maxHeap = ms.HeapAlloc
+	}
+	return ms.HeapAlloc > 2<<30 // runaway allocation
+}
+
+func (w *world) runMatrix(in Input) Obs {
+	ctx := context.Background()
+	o := Obs{Consistent: true}
+	selected := func(st string) bool { return st == "skip" || st == "enforce" }
+	vconsistent := func(err error, out *notation.VerificationOutcome, sel bool) bool {
+		if err == nil && (out == nil || out.Error != nil) {
+			return false
+		}
+		if err != nil && sel && (out == nil || out.Error == nil) {
+			return false
+		}
+		return true
+	}
+	o.Panicked = w.guard(in.Entry, func() {
+		v, bv, skipper := w.verifier(in)
+		vopts := notation.VerifierVerifyOptions{ArtifactReference: ref + "@" + target.Digest.String(), SignatureMediaType: common.MediaJWS}
+		bopts := notation.BlobVerifierVerifyOptions{SignatureMediaType: common.MediaJWS, TrustPolicyName: "c12"}
+		gen := func(a digest.Algorithm) (ocispec.Descriptor, error) {
+			return ocispec.Descriptor{Digest: a.FromBytes(blob), Size: int64(len(blob))}, nil
+		}
+		switch in.Entry {
+		case "vVerify":
+			out, err := v.Verify(ctx, target, w.sigs[in.Sig], vopts)
+			o.Err, o.Outcome, o.Consistent = err != nil, outcomeOf(out), vconsistent(err, out, selected(in.OCI))
+		case "vVerifyBlob":
+			out, err := bv.VerifyBlob(ctx, gen, w.blobSigs[in.Sig], bopts)
+			o.Err, o.Outcome, o.Consistent = err != nil, outcomeOf(out), vconsistent(err, out, selected(in.Blob))
+		case "skipVerify":
+			skip, _, err := skipper.SkipVerify(ctx, vopts)
+			o.Err = err != nil
+			if skip {
+				o.Outcome = &Outcome{}
+			}
+			o.Consistent = !(err != nil && skip)
+		case "nVerify":
+			_, outs, err := notation.Verify(ctx, v, &repo{w.sigs[in.Sig]}, notation.VerifyOptions{ArtifactReference: vopts.ArtifactReference, MaxSignatureAttempts: 3})
+			o.Err = err != nil
+			if len(outs) > 0 {
+				o.Outcome = outcomeOf(outs[0])
+			}
+			o.Consistent = !(err == nil && (len(outs) != 1 || outs[0] == nil || outs[0].Error != nil))
+		case "nVerifyBlob":
+			_, out, err := notation.VerifyBlob(ctx, bv, bytes.NewReader(blob), w.blobSigs[in.Sig], notation.VerifyBlobOptions{BlobVerifierVerifyOptions: bopts})
+			o.Err, o.Outcome = err != nil, outcomeOf(out)
+			o.Consistent = !(err == nil && (out == nil || out.Error != nil))
+		case "userMetadata":
+			out, err := v.Verify(ctx, target, w.sigs[in.Sig], vopts)
+			if out == nil {
+				o.Err = err != nil
+				return
+			}
+			_, uerr := out.UserMetadata()
+			o.Err, o.Outcome = uerr != nil, outcomeOf(out)
+		case "nilArgs":
+			_, _, e1 := notation.Verify(ctx, nil, &repo{}, notation.VerifyOptions{ArtifactReference: vopts.ArtifactReference, MaxSignatureAttempts: 1})
+			_, _, e2 := notation.Verify(ctx, v, nil, notation.VerifyOptions{ArtifactReference: vopts.ArtifactReference, MaxSignatureAttempts: 1})
+			_, _, e3 := notation.VerifyBlob(ctx, nil, bytes.NewReader(blob), w.blobSigs["valid"], notation.VerifyBlobOptions{BlobVerifierVerifyOptions: bopts})
+			_, _, e4 := notation.VerifyBlob(ctx, bv, nil, w.blobSigs["valid"], notation.VerifyBlobOptions{BlobVerifierVerifyOptions: bopts})
+			o.Err = e1 != nil && e2 != nil && e3 != nil && e4 != nil
+			o.Consistent = o.Err
+		}
+	})
+	if o.Panicked {
+		o = Obs{Panicked: true}
+	}
+	return o
+}
+
+func mutate(c *common.Ctx, src []byte) []byte {
+	m := append([]byte(nil), src...)
+	n := 1 + c.Rand.Intn(3)
+	for k := 0; k < n && len(m) > 0; k++ {
+		switch c.Rand.Intn(6) {
+		case 0:
+			m[c.Rand.Intn(len(m))] ^= 1 << uint(c.Rand.Intn(8))
+		case 1:
+			p := c.Rand.Intn(len(m))
+			m = append(m[:p], m[p+1:]...)
+		case 2:
+			m = m[:c.Rand.Intn(len(m))]
+		case 3:
+			m[c.Rand.Intn(len(m))] = byte(c.Rand.Intn(256))
+		case 4: // duplicate a slice
+			p := c.Rand.Intn(len(m))
+			q := p + c.Rand.Intn(len(m)-p)
+			m = append(m[:q], append(append([]byte(nil), m[p:q]...), m[q:]...)...)
+		default: // structural JSON damage
+			toks := []string{"null", "{}", "[]", "\"\"", "0", "-1", "1e999", "true", "{\"a\":", "\\u0000"}
+			p := c.Rand.Intn(len(m))
+			m = append(m[:p], append([]byte(toks[c.Rand.Intn(len(toks))]), m[p:]...)...)
+		}
+	}
+	return m
+}
+
+func (w *world) fuzz(c *common.Ctx, n int) {
+	ctx := context.Background()
+	base := Input{OCI: "enforce", Blob: "enforce", Manager: true, Sig: "garbage", Fuzz: true}
+	v, bv, _ := w.verifier(base)
+	cose := common.MustSign(common.EnvOpts{Format: common.MediaCOSE, Chain: w.chain, Target: &target})
+	gen := func(a digest.Algorithm) (ocispec.Descriptor, error) {
+		return ocispec.Descriptor{Digest: a.FromBytes(blob), Size: int64(len(blob))}, nil
+	}
+	emit := func(entry, label string, f func() bool) {
+		in := base
+		in.Entry = entry
+		consistent := true
+		p := w.guard(label, func() { consistent = f() })
+		if w.heapCheck() {
+			p = true
+		}
+		o := Obs{Panicked: p, Consistent: consistent && !p}
+		c.Emit(in, o)
+		c.Count("fuzz=" + label)
+	}
+	pair := func(out *notation.VerificationOutcome, err error) bool {
+		if err == nil {
+			return out != nil && out.Error == nil
+		}
+		return out != nil && out.Error != nil
+	}
+	// policy documents
+	ociDoc, _ := json.Marshal(trustpolicy.OCIDocument{Version: "1.0", TrustPolicies: []trustpolicy.OCITrustPolicy{
+		{Name: "a", RegistryScopes: []string{"reg.example/a"}, SignatureVerification: sv("strict"), TrustStores: []string{"ca:x"}, TrustedIdentities: []string{"x509.subject: C=US, ST=WA, O=o, CN=a"}},
+		{Name: "b", RegistryScopes: []string{"*"}, SignatureVerification: sv("audit"), TrustStores: []string{"ca:x", "tsa:t"}, TrustedIdentities: []string{"*"}}}})
+	blobDoc, _ := json.Marshal(trustpolicy.BlobDocument{Version: "1.0", TrustPolicies: []trustpolicy.BlobTrustPolicy{
+		{Name: "a", SignatureVerification: sv("strict"), TrustStores: []string{"ca:x"}, TrustedIdentities: []string{"*"}, GlobalPolicy: true}}})
+	// config files
+	cfgDir := filepath.Join(c.WorkDir, "cfg")
+	os.MkdirAll(cfgDir, 0o755)
+	oldCfg := dir.UserConfigDir
+	dir.UserConfigDir = cfgDir
+	defer func() { dir.UserConfigDir = oldCfg }()
+	cfgJSON := []byte(`{"insecureRegistries":["reg.example"],"credsStore":"x","credHelpers":{"a":"b"},"signatureFormat":"jws"}`)
+	keysJSON := []byte(`{"default":"k","keys":[{"name":"k","keyPath":"/k.key","certPath":"/k.crt"},{"name":"p","id":"i","pluginName":"pl","pluginConfig":{"a":"b"}}]}`)
+	// crl cache
+	cacheRoot := filepath.Join(c.WorkDir, "crl")
+	cache, err := crl.NewFileCache(cacheRoot)
+	if err != nil {
+		panic(err)
+	}
+	ca := common.MakeCert(common.CertOpts{Subject: common.Name("c12 crl ca"), CA: true, PathLen: -1, KeyUsage: x509.KeyUsageCertSign | x509.KeyUsageCRLSign})
+	crlDER, err := x509.CreateRevocationList(nil2(), &x509.RevocationList{Number: bigOne(), ThisUpdate: time.Now().Add(-time.Hour), NextUpdate: time.Now().Add(time.Hour)}, ca.Cert, ca.Key)
+	if err != nil {
+		panic(err)
+	}
+	entry, _ := json.Marshal(map[string][]byte{"baseCRL": crlDER, "deltaCRL": crlDER})
+	// trust store files
+	tsRoot := filepath.Join(c.WorkDir, "ts")
+	storeDir := filepath.Join(tsRoot, "truststore", "x509", "ca", "s")
+	os.MkdirAll(storeDir, 0o755)
+	ts := truststore.NewX509TrustStore(dir.NewSysFS(tsRoot))
+	pemBytes := common.PEM(w.chain.Root().Cert)
+
+	for k := 0; k < n; k++ {
+		switch k % 9 {
+		case 0:
+			sig := mutate(c, w.sigs["valid"])
+			emit("vVerify", "jws-envelope", func() bool {
+				return pair(v.Verify(ctx, target, sig, notation.VerifierVerifyOptions{ArtifactReference: ref + "@" + target.Digest.String(), SignatureMediaType: common.MediaJWS}))
+			})
+		case 1:
+			sig := mutate(c, cose)
+			emit("vVerify", "cose-envelope", func() bool {
+				return pair(v.Verify(ctx, target, sig, notation.VerifierVerifyOptions{ArtifactReference: ref + "@" + target.Digest.String(), SignatureMediaType: common.MediaCOSE}))
+			})
+		case 2:
+			sig := mutate(c, w.blobSigs["valid"])
+			emit("vVerifyBlob", "blob-envelope", func() bool {
+				return pair(bv.VerifyBlob(ctx, gen, sig, notation.BlobVerifierVerifyOptions{SignatureMediaType: common.MediaJWS, TrustPolicyName: "c12"}))
+			})
+		case 3:
+			// random bytes of random length as either format
+			rb := make([]byte, c.Rand.Intn(300))
+			c.Rand.Read(rb)
+			mt := common.MediaJWS
+			if k%2 == 1 {
+				mt = common.MediaCOSE
+			}
+			emit("vVerify", "random-bytes", func() bool {
+				return pair(v.Verify(ctx, target, rb, notation.VerifierVerifyOptions{ArtifactReference: ref + "@" + target.Digest.String(), SignatureMediaType: mt}))
+			})
+		case 4:
+			d := mutate(c, ociDoc)
+			emit("parser", "oci-policy", func() bool {
+				var doc trustpolicy.OCIDocument
+				if json.Unmarshal(d, &doc) != nil {
+					return true
+				}
+				if doc.Validate() == nil {
+					doc.GetApplicableTrustPolicy("reg.example/a@" + target.Digest.String())
+					for _, p := range doc.TrustPolicies {
+						p.SignatureVerification.GetVerificationLevel()
+					}
+				}
+				_, err := verifier.NewVerifierWithOptions(common.NewMemStore(), verifier.VerifierOptions{OCITrustPolicy: &doc})
+				_ = err
+				return true
+			})
+		case 5:
+			d := mutate(c, blobDoc)
+			emit("parser", "blob-policy", func() bool {
+				var doc trustpolicy.BlobDocument
+				if json.Unmarshal(d, &doc) != nil {
+					return true
+				}
+				if doc.Validate() == nil {
+					doc.GetApplicableTrustPolicy("a")
+					doc.GetGlobalTrustPolicy()
+				}
+				return true
+			})
+		case 6:
+			cj, kj := mutate(c, cfgJSON), mutate(c, keysJSON)
+			emit("parser", "config-files", func() bool {
+				os.WriteFile(filepath.Join(cfgDir, dir.PathConfigFile), cj, 0o644)
+				os.WriteFile(filepath.Join(cfgDir, dir.PathSigningKeys), kj, 0o644)
+				config.LoadConfig()
+				if ks, err := config.LoadSigningKeys(); err == nil && ks != nil {
+					ks.GetDefault()
+					ks.Get("k")
+					ks.Get("p")
+				}
+				return true
+			})
+		case 7:
+			e := mutate(c, entry)
+			emit("parser", "crl-cache-entry", func() bool {
+				url := fmt.Sprintf("http://example/crl/%d", k)
+				if err := cache.Set(ctx, url, nil); err == nil {
+					return false
+				}
+				// plant the mutated entry under the name the cache uses for this url
+				names, _ := os.ReadDir(cacheRoot)
+				_ = names
+				plantCRL(cacheRoot, url, e)
+				b, err := cache.Get(ctx, url)
+				return err != nil || b != nil
+			})
+		default:
+			pm := mutate(c, pemBytes)
+			emit("parser", "trust-store-file", func() bool {
+				os.WriteFile(filepath.Join(storeDir, "cert.pem"), pm, 0o644)
+				certs, err := ts.GetCertificates(ctx, truststore.TypeCA, "s")
+				return (err == nil) == (len(certs) > 0)
+			})
+		}
+	}
+	_ = errors.New
+	_ = strings.TrimSpace
+	_ = plugin.NewCLIManager
+}
+
+// Run: the full configuration matrix, then the malformed-input stream.
+func Run(c *common.Ctx) error {
+	w := newWorld()
+	stmts := []string{"missing", "noMatch", "skip", "enforce"}
+	for _, entry := range []string{"vVerify", "vVerifyBlob", "skipVerify", "nVerify", "nVerifyBlob", "userMetadata", "nilArgs"} {
+		for _, oci := range stmts {
+			for _, bl := range stmts {
+				if oci == "missing" && bl == "missing" {
+					continue // the constructor refuses a verifier without any policy
+				}
+				for _, mgr := range []bool{false, true} {
+					for _, sig := range []string{"valid", "garbage", "demandsPlugin"} {
+						in := Input{Entry: entry, OCI: oci, Blob: bl, Manager: mgr, Sig: sig}
+						o := w.runMatrix(in)
+						c.Emit(in, o)
+						c.Count("entry=" + entry)
+						c.Count(fmt.Sprintf("err=%v", o.Err))
+						if o.Panicked {
+							c.Count("panicked")
+						}
+					}
+				}
+			}
+		}
+	}
+	n := 4500
+	if c.Thorough() {
+		n = 90000
+	}
+	w.fuzz(c, n)
+	for _, p := range w.panics {
+		c.Note("panic: %s", p)
+	}
+	c.Note("configuration matrix: 7 entry points x OCI document {missing, no match, skip, enforce} x blob document (same) x plugin manager {nil, present} x signature {valid, garbage, demands a missing plugin} (exhaustive); malformed-input stream (sampled, fuzz-style): mutated JWS/COSE envelopes, random bytes, OCI/blob policy JSON, config.json / signingkeys.json, CRL cache entries, trust store files; heap high-water mark %d MiB", w.maxHeap>>20)
+	return nil
+}
